@@ -61,6 +61,22 @@ class _UseMoves(Client):
             return "listop"
         return None
 
+    def refine(self, test, state, ctx: Ctx):
+        # `node is self.<list>.<end>`: on the true branch the node already stands at that end (moving it there is a no-op)
+        neg = False
+        t = test
+        while isinstance(t, ast.UnaryOp) and isinstance(t.op, ast.Not):
+            t, neg = t.operand, not neg
+        if isinstance(t, ast.Compare) and len(t.ops) == 1 and isinstance(t.ops[0], (ast.Is, ast.IsNot)) and ctx.func.cls is self.cf.cls:
+            for a, b in ((t.left, t.comparators[0]), (t.comparators[0], t.left)):
+                d = dotted(b)
+                if isinstance(a, ast.Name) and d and len(d) == 3 and d[0] == ctx.func.self_name and d[1] == self.cf.list_field \
+                        and d[2] in self.cf.lf.ends:
+                    at_end = (state | {d[2]},)
+                    same = isinstance(t.ops[0], ast.Is) != neg
+                    return (at_end, (state,)) if same else ((state,), at_end)
+        return (state,), (state,)
+
     def event(self, kind, node, state, ctx: Ctx):
         if kind == "listop":
             name = node.func.attr
